@@ -1,4 +1,5 @@
 import MjProof.Lemmas.Sort
+import MjProof.Lemmas.SortHeap
 /-
 C22  Sorting and selection utilities are correct and stable.
 
@@ -83,6 +84,64 @@ theorem insertionSortInt_sorted (l : List Int) :
   · simp [h] at hab
   · omega
 
+/-- `mjPARTIAL_SORT` does nothing when `k` is out of range (`k ≤ 0` or `n < k`), as the macro's guard says. -/
+theorem partialSort_noop (cmp : α → α → Int) (l : List α) (k : Int) (hk : k ≤ 0 ∨ (l.length : Int) < k) :
+    partialSort cmp l k = l := by
+  unfold partialSort
+  simp [hk]
+
+/-- `mjPARTIAL_SORT` (heap of size `k`, scan, final insertion sort): for every array and every
+    `1 ≤ k ≤ n` the first `k` outputs are the `k` smallest elements in sorted order — they are sorted,
+    together with some `rest` they form a permutation of the input, and every element of `rest` is at
+    least as large as each of them; the tail of the array is untouched.  Unbounded in `n` and `k`. -/
+theorem partialSort_k_smallest {cmp : α → α → Int} (h : HeapCmp cmp) (l : List α) (k : Int)
+    (hk1 : 1 ≤ k) (hkn : k ≤ (l.length : Int)) :
+    (partialSort cmp l k).length = l.length ∧
+    (partialSort cmp l k).drop k.toNat = l.drop k.toNat ∧
+    ((partialSort cmp l k).take k.toNat).Pairwise (Le cmp) ∧
+    ∃ rest, ((partialSort cmp l k).take k.toNat ++ rest) ~ l ∧
+      ∀ x ∈ (partialSort cmp l k).take k.toNat, ∀ y ∈ rest, Le cmp x y := by
+  have hcond : ¬ (k ≤ 0 ∨ (l.length : Int) < k) := by omega
+  obtain ⟨kn, rfl⟩ : ∃ kn : Nat, k = (kn : Int) := ⟨k.toNat, by omega⟩
+  have hkn' : kn ≤ l.length := by omega
+  have hk1' : 1 ≤ kn := by omega
+  simp only [Int.toNat_natCast]
+  unfold partialSort
+  simp only [hcond, ↓reduceIte, Int.toNat_natCast]
+  -- the heap after heapify
+  let b0 := (l.take kn).toArray
+  have hb0 : b0.size = kn := by simp [b0, hkn']
+  let start := if kn ≥ 2 then (kn - 2) / 2 + 1 else 1
+  let b1 := heapify cmp b0 kn start
+  have hb1 : b1.size = kn := by simp [b1, heapify_size, hb0]
+  have hheap1 : Heap cmp b1 kn := by
+    apply heapify_heap h kn start b0 (by omega)
+    intro i hi c hc hib hcn hcc
+    simp only [start] at hi
+    split at hi <;> omega
+  have inv0 : ScanInv cmp kn b1 (l.take kn) [] := by
+    refine ⟨hb1, hheap1, ?_, by simp⟩
+    simpa [b1, b0] using heapify_perm cmp kn start b0
+  obtain ⟨disc, inv⟩ := scan_inv h kn (by omega) (l.drop kn) b1 (l.take kn) [] inv0
+  rw [take_append_drop] at inv
+  -- name the final heap
+  show (insertionSort cmp (scan cmp kn b1 (l.drop kn)).toList ++ l.drop kn).length = _ ∧ _
+  generalize hbf : scan cmp kn b1 (l.drop kn) = bf at inv
+  obtain ⟨hp, hs, _⟩ := Sort.insertionSort_stableSorted h.toTotalPreorder bf.toList
+  have hlen : (insertionSort cmp bf.toList).length = kn := by
+    rw [hp.length_eq]; simpa using inv.size
+  refine ⟨?_, ?_, ?_, disc, ?_, ?_⟩
+  · simp [hlen]; omega
+  · rw [drop_append_of_le_length (by omega)]
+    simp [hlen]
+  · rw [take_append_of_le_length (by omega), take_of_length_le (by omega)]
+    exact hs
+  · rw [take_append_of_le_length (by omega), take_of_length_le (by omega)]
+    exact (hp.append_right disc).trans inv.perm
+  · rw [take_append_of_le_length (by omega), take_of_length_le (by omega)]
+    intro x hx y hy
+    exact inv.dom y hy x (hp.mem_iff.mp hx)
+
 /-! Non-vacuity: the key comparator used by the correspondence harness is a total preorder, and a
 the theorem instantiates on it (concrete runs through the merge phase, n > 32, are executed by the
 correspondence driver, where `mjSort` is compiled code). -/
@@ -94,6 +153,15 @@ theorem cmpKey_totalPreorder : TotalPreorder cmpKey := by
   · intro a b; unfold cmpKey; split <;> split <;> (try split) <;> (try split) <;> omega
   · intro a b c; unfold cmpKey; intro h1 h2
     split at h1 <;> split at h2 <;> (try split at h1) <;> (try split at h2) <;> split <;> (try split) <;> omega
+
+theorem cmpKey_heapCmp : HeapCmp cmpKey := by
+  refine { toTotalPreorder := cmpKey_totalPreorder, antisym := ?_ }
+  intro a b; unfold cmpKey
+  split <;> split <;> (try split) <;> (try split) <;> omega
+
+example (l : List (Int × Nat)) (k : Int) (h1 : 1 ≤ k) (h2 : k ≤ l.length) :
+    ((partialSort cmpKey l k).take k.toNat).Pairwise (Le cmpKey) :=
+  (partialSort_k_smallest cmpKey_heapCmp l k h1 h2).2.2.1
 
 /-- the hypotheses are satisfiable: the theorem applies to the harness comparator on every list -/
 example (l : List (Int × Nat)) : StableSorted cmpKey l (mjSort cmpKey l) :=
